@@ -21,5 +21,10 @@ for _f in sorted(glob.glob(os.path.join(os.path.dirname(os.path.abspath(__file__
         else:
             PROPS[_k] = _v
 
-NOT_APPLICABLE = {k: "check not built yet (work in progress; see DESIGN.md)"
-                  for k in ["C%02d" % i for i in range(1, 21)] if k not in PROPS}
+# properties whose checks have been accepted by the lead (silent on the unchanged tree,
+# sensitivity-tested); only these are claimed in MANIFEST.json
+with open(os.path.join(os.path.dirname(os.path.abspath(__file__)), "props.d", "READY")) as _fh:
+    READY = [l.strip() for l in _fh if l.strip() and not l.startswith("#")]
+
+NOT_APPLICABLE = {k: "check not finished yet (work in progress; see DESIGN.md)"
+                  for k in ["C%02d" % i for i in range(1, 21)] if k not in PROPS or k not in READY}
